@@ -32,6 +32,12 @@ SKELETONS = [
     dict(name="transition-lists", text="{[][$|3 4 5 6 0 8|]C([$|4.0|])C=O,[$|6.0|]CC([$|10.1|])CO;[$][H], [$]O[]}|flory_schulz(9e-4)|", closed=True),
     dict(name="left-terminal-list", text="N{[<|0 2 0 1|][<]CC[>], [<]CO[>][>]}|gauss(50,5)|O", closed=True),
     dict(name="aromatic-charged-bracket", text="[H]{[>][<]CC([>])c1ccccc1, [<]C[N+](C)(C)[>], [<][Si]C[>][<]}|gauss(150,5)|[O-]", closed=True),
+    dict(name="list-carrying-handover", text="N{[<][<|0 1|]CC[>][>]}|gauss(60,5)|{[<][<]CO[>], [<]CN[>][>]}|gauss(60,5)|F", closed=True),
+    dict(name="list-handover-to-shorter-table", text="{[][<]CC[>|0 0 1 0 0|], [<]CC(C)[>|0 0 1 0 0|]; [>][H][<]}|uniform(60, 80)|{[>][<]CO[>]; [<]F[]}|uniform(60, 80)|", closed=True),
+    dict(name="same-fragment-two-orders", text="{[][<]OCC(C)[>], [>]C(C)CO[<]; [>][H], [<][H][]}|uniform(250, 300)|", closed=True),
+    dict(name="terminal-list-incompatible-entry", text="N{[<|0 2 1 1|][<]CC[>], [<]CO[>][>]}|gauss(50,5)|O", closed=False),
+    dict(name="descriptor-after-branch", text="{[][<]CC(C)([>])C(=O)OC; [<]O, [>]N[]}|gauss(150,5)|", closed=True),
+    dict(name="isotope-labelled-unit", text="N{[<][<]C([2H])([2H])C([2H])(C)[>][>]}|gauss(60,5)|[2H]", closed=True),
     dict(name="open-right-end", text="N{[<][<]CC[>][>]}|gauss(50,5)|", closed=False),
     dict(name="zero-weight-unit", text="N{[<][<]CC[>], [<|0|]CO[>|0|][>]}|gauss(50,5)|O", closed=True),
 ]
